@@ -12,6 +12,7 @@ package vsched
 
 import (
 	"fmt"
+	"os"
 	"runtime"
 	"runtime/debug"
 	"sort"
@@ -185,7 +186,19 @@ func runOnce(cfg Config, prefix []int, scenario func()) *Exec {
 	t0 := s.newThread("main", scenario)
 	s.cur = t0
 	t0.baton <- struct{}{}
+	// watchdog: an execution that does not end within a minute of real time is stuck in an operation the
+	// scheduler does not control (uninstrumented blocking call): infrastructure error, never a verdict
+	wd := time.AfterFunc(90*time.Second, func() {
+		fmt.Fprintf(os.Stderr, "INFRASTRUCTURE ERROR: execution stuck for 90s of real time (uninstrumented blocking operation?)\n")
+		for _, t := range s.threads {
+			fmt.Fprintf(os.Stderr, "  thread %s finished=%v at %s:%s\n", t.name, t.finished, t.kind, t.obj)
+		}
+		buf := make([]byte, 1<<16)
+		fmt.Fprintf(os.Stderr, "%s\n", buf[:runtime.Stack(buf, true)])
+		os.Exit(2)
+	})
 	<-s.done
+	wd.Stop()
 	// tear down: abort every parked thread, one at a time
 	s.aborting = true
 	ex := &Exec{Outcome: s.outcome, Choices: s.choices, Steps: s.steps, Trace: s.trace, Notes: s.notes, ReplayEr: s.replayEr, EndNow: time.Duration(s.now)}
